@@ -327,10 +327,12 @@ class AsyncPolicy:
         on_end: AttemptHook | None,
     ) -> RetryOutcome[T]:
         """Execute single async attempt without retry."""
+        invoked = 0
         try:
             if on_start is not None:
                 on_start(make_attempt_context(1, ctx.operation, ctx.elapsed()))
 
+            invoked = 1
             result = await func()
 
         except AbortRetryError as exc:
@@ -346,7 +348,8 @@ class AsyncPolicy:
                         stop_reason=StopReason.ABORTED,
                     )
                 )
-            return build_aborted_outcome(ctx, attempts=1)
+            # An abort raised by the start hook ends the run before the operation was invoked.
+            return build_aborted_outcome(ctx, attempts=invoked)
 
         except asyncio.CancelledError:
             record_cancel(ctx)
